@@ -323,11 +323,11 @@ def exec_history(pid, tpl, seed, hid, ops, keys, plen, lib_only=False, intr=Fals
         locked_pw = keys["alice"]["password"]
         # every library-level key encryption of this history runs in ONE process, one after the other
         # (identical inputs): randomness cached across calls within a process must show
-        lib_idx = [k for k, op in enumerate(ops) if op == "rand" or (op == "kenc" and (k % 2 == 0 or lib_only))]
+        lib_idx = [k for k, op in enumerate(ops) if op in ("rand", "rand32") or (op == "kenc" and (k % 2 == 0 or lib_only))]
         lib_ops = []
         for k in lib_idx:
-            if ops[k] == "rand":
-                lib_ops.append({"op": "rand", "id": "%s.%d" % (hid, k)})
+            if ops[k] in ("rand", "rand32"):
+                lib_ops.append({"op": ops[k], "id": "%s.%d" % (hid, k)})
                 continue
             reads = [[], [7, 3], [1, 1, 1], [1000, 65536, 5], [65536, 100, 65536]][(k // 2 + len(hid)) % 5]
             lop = {"op": "kenc_draws", "kseed": 1, "rseed": 1, "plen": max(plen, 12), "reads": reads, "id": "%s.%d" % (hid, k)}
@@ -343,11 +343,13 @@ def exec_history(pid, tpl, seed, hid, ops, keys, plen, lib_only=False, intr=Fals
             tag = "%s.%d" % (hid, k)
 
             def draw(kind, v, ok=True):
-                evs.append({"ev": "draw", "id": tag, "op": op, "kind": kind, "v": v if v else "unrecovered-%s" % tag, "ok": bool(ok and v)})
+                # w: every 8-byte window of the value (25 of them): a value is fresh when NONE of its windows was handed out before
+                evs.append({"ev": "draw", "id": tag, "op": op, "kind": kind, "v": v if v else "unrecovered-%s" % tag, "ok": bool(ok and v),
+                            "w": [v[2 * j:2 * j + 16] for j in range(len(v) // 2 - 7)] if v else []})
 
             def seal(key, nonce, index):
                 evs.append({"ev": "seal", "id": tag, "op": op, "key": key, "nonce": nonce, "index": index})
-            if op == "rand":
+            if op in ("rand", "rand32"):
                 o = lib_res[k]
                 draw("random", o.get("random"), o.get("ok"))
                 draw("privkey", o.get("privkey"), o.get("ok"))
@@ -428,7 +430,8 @@ def c07(pid, tier, seed, selftest=False):
     rep.rule = ("every history of <= n operations over {key encryption (library with randomness left to it / CLI, alternating), "
                 "password encryption (CLI), key generation (CLI), password change (CLI)} with identical inputs, enumerated by TLC "
                 "on Fresh.tla, is executed; each value the real code drew (ephemeral key, payload key, file key, salt, generated "
-                "private key) is recovered from its output by specification-directed opening, and every AEAD seal (handshake "
+                "private key) is recovered from its output by specification-directed opening (freshness is judged per 8-byte window of a "
+                "value against all earlier values of the history, one-process library histories up to 80 draws), and every AEAD seal (handshake "
                 "keys at nonce 0, each record's key and the nonce it opens at) is logged; Trace_Fresh checks no value drawn "
                 "twice, no (key, nonce) reused, chunk i sealed at nonce i; EncLoop's NonceOnce/NonceIsIndex are model-checked "
                 "for every schedule; non-trivial = history with >= 2 operations")
@@ -462,6 +465,8 @@ def c07(pid, tier, seed, selftest=False):
     hists += [["kenc"] * 6, ["penc"] * 6, ["generate"] * 5, ["generate"] + ["changepass"] * 5]
     n_model = len(hists)
     hists += [["kenc"] * 5, ["kenc"] * 2, ["rand"] * 6, ["rand", "kenc", "rand", "kenc"]]       # library only, one process
+    # long one-process histories (80 and 60 draws of 32 bytes): a pool or a cache that hands bytes out again after a while
+    hists += [["rand32"] * 40, ["rand32", "kenc"] * 15]
     n_intr = len(hists)
     hists += [["kenc"] * 6]                     # library only, every second one with an interrupted read
     n_lo = len(hists)
